@@ -332,6 +332,69 @@ impl Program {
         }
     }
 
+    /// C11 (namespaces): constants, structures/words and functions are three separate namespaces, so a
+    /// module may use one name for one declaration of each.  For every second program one or two groups
+    /// of declarations of different kinds share a name `N<k>`; the pairs (generated name, shared name)
+    /// are applied to the rendered text by `render_shared`.  A program with shared names is still a
+    /// set of declarations: every order must be accepted and behave alike.
+    pub fn shared_names(&self, seed: u64, index: usize) -> Vec<(String, String)> {
+        let mut out = Vec::new();
+        if index % 2 == 0 {
+            return out;
+        }
+        let mut rng = Rng::new(seed, 0xC11C_4000 + index as u64);
+        let n = self.items.len();
+        let mut pools: Vec<Vec<usize>> = vec![Vec::new(), Vec::new(), Vec::new()];
+        for a in 1..=n {
+            match self.kind(a) {
+                "const" => pools[0].push(a),
+                "struct" => pools[1].push(a),
+                _ if !matches!(self.items[a - 1], Item::Main { .. }) => pools[2].push(a),
+                _ => (),
+            }
+        }
+        let groups = rng.range(1, 2);
+        for k in 1..=groups {
+            // which namespaces take part: at least two of the three
+            let mask = [0b011, 0b101, 0b110, 0b111, 0b011][rng.below(5)];
+            for (bit, pool) in pools.iter_mut().enumerate() {
+                if mask & (1 << bit) != 0 && !pool.is_empty() {
+                    let a = pool.remove(rng.below(pool.len()));
+                    out.push((self.name(a), format!("N{k}")));
+                }
+            }
+        }
+        out
+    }
+
+    pub fn render_shared(&self, order: &[usize], shared: &[(String, String)]) -> String {
+        let text = self.render(order);
+        if shared.is_empty() {
+            return text;
+        }
+        let mut out = String::with_capacity(text.len());
+        let mut cur = String::new();
+        let flush = |cur: &mut String, out: &mut String| {
+            if !cur.is_empty() {
+                match shared.iter().find(|(from, _)| from == cur) {
+                    Some((_, to)) => out.push_str(to),
+                    None => out.push_str(cur),
+                }
+                cur.clear();
+            }
+        };
+        for c in text.chars() {
+            if c.is_ascii_alphanumeric() || c == '_' {
+                cur.push(c);
+            } else {
+                flush(&mut cur, &mut out);
+                out.push(c);
+            }
+        }
+        flush(&mut cur, &mut out);
+        out
+    }
+
     pub fn render(&self, order: &[usize]) -> String {
         let mut s = String::new();
         for a in order {
